@@ -267,6 +267,10 @@ def one_case(res, rng, case, seed):
                             res.violate("update-misattributed", "betdaq order %d (reference %s) holds the order-stream update of reference %r (bet %r): "
                                         "an update whose reference matches no local order was attributed to it" % (
                                             o._mid, o.id, held.get("customer_reference"), held.get("order_id")), payload)
+                        if not o.complete and o not in list(market.blotter.live_orders):
+                            res.violate("live-order-not-in-live-list", "betdaq order %d: not complete (status %s, request %s in flight) after the stream "
+                                        "update %s but no longer in the blotter's live list" % (
+                                            o._mid, o.status.name if o.status else None, due.get(id(o)), stname), payload)
                         if o.complete and o in list(market.blotter.live_orders):
                             res.violate("complete-order-in-live-list", "betdaq order %d: complete after the stream update but still in the "
                                         "blotter's live list" % o._mid, payload)
